@@ -80,8 +80,21 @@ func firstDiffHelper(tab []byte) []byte { return []byte(hex.EncodeToString(tab))
 
 func main() {
 	if par.IsWorker() {
-		var j struct{ Order string }
+		var j struct {
+			Order string
+			First string
+			In    probeInput
+		}
 		par.WorkerMain(&j, func() interface{} {
+			if j.First != "" {
+				// the named entry point is the FIRST thing this process does with the library
+				first := probes[j.First](j.In)
+				out := map[string]string{"first": j.First, "first-digest": first}
+				for _, n := range probeNames() {
+					out["then:"+n] = probes[n](j.In)
+				}
+				return out
+			}
 			// nothing else may call GetAuditEventType in this process before the ordered pass
 			return map[string]string{"order": j.Order, "table": orderTable(j.Order)}
 		})
@@ -100,6 +113,7 @@ func main() {
 	ruleTables()
 	normalizations()
 	eventTypes()
+	firstCalls()
 
 	run.Set("evaluations", evals)
 	run.Set("distinct_nontrivial", nontriv)
@@ -107,6 +121,190 @@ func main() {
 	run.Set("exhaustive", true)
 	run.Assume("amd64 host: arch names print as b64/b32 for x86_64/i386; codes compared with refdata (linux/audit.h)")
 	os.Exit(run.Finish())
+}
+
+// ---- every entry point as the FIRST call of a fresh process ----------------------------------
+//
+// Tables that are built lazily, memoised or primed by another entry point give the same
+// answers only if every reader triggers the construction.  Each probe is a deterministic
+// digest of one entry point over fixed inputs; for each probe a fresh process runs it first
+// (then all the others); the digest must equal the one of a process that has done everything.
+
+type probeInput struct {
+	Wires []string // hex wire rules (built by the parent)
+	Lines []string // rule lines
+	Names []string // record type names
+	Logs  []string // audit log lines
+}
+
+func dig(parts ...string) string {
+	h := sha1.New()
+	for _, p := range parts {
+		fmt.Fprintf(h, "%d:%s;", len(p), p)
+	}
+	return hex.EncodeToString(h.Sum(nil))
+}
+
+var probes = map[string]func(in probeInput) string{
+	"rule.ToCommandLine": func(in probeInput) string {
+		var out []string
+		for _, w := range in.Wires {
+			b, _ := hex.DecodeString(w)
+			for _, resolve := range []bool{false} {
+				t, err := rule.ToCommandLine(rule.WireFormat(b), resolve)
+				out = append(out, t, fmt.Sprint(err))
+			}
+		}
+		return dig(out...)
+	},
+	"flags.Parse+rule.Build": func(in probeInput) string {
+		var out []string
+		for _, l := range in.Lines {
+			w, err := buildLine(l)
+			out = append(out, hex.EncodeToString(w), fmt.Sprint(err))
+		}
+		return dig(out...)
+	},
+	"AuditMessageType.String": func(in probeInput) string {
+		var out []string
+		for t := 0; t < 65536; t++ {
+			out = append(out, auparse.AuditMessageType(t).String())
+		}
+		return dig(out...)
+	},
+	"GetAuditMessageType": func(in probeInput) string {
+		var out []string
+		for _, n := range in.Names {
+			t, err := auparse.GetAuditMessageType(n)
+			out = append(out, fmt.Sprint(t, err))
+		}
+		return dig(out...)
+	},
+	"MarshalText": func(in probeInput) string {
+		var out []string
+		for t := 0; t < 65536; t += 7 {
+			b, err := auparse.AuditMessageType(t).MarshalText()
+			out = append(out, string(b), fmt.Sprint(err))
+		}
+		return dig(out...)
+	},
+	"UnmarshalText": func(in probeInput) string {
+		var out []string
+		for _, n := range in.Names {
+			var t auparse.AuditMessageType
+			err := t.UnmarshalText([]byte(strings.ToLower(n)))
+			out = append(out, fmt.Sprint(t, err))
+		}
+		return dig(out...)
+	},
+	"ParseLogLine+Data": func(in probeInput) string {
+		var out []string
+		for _, l := range in.Logs {
+			m, err := auparse.ParseLogLine(l)
+			if err != nil {
+				out = append(out, err.Error())
+				continue
+			}
+			d, err := m.Data()
+			keys := make([]string, 0, len(d))
+			for k := range d {
+				keys = append(keys, k)
+			}
+			sort.Strings(keys)
+			for _, k := range keys {
+				out = append(out, k, d[k])
+			}
+			out = append(out, fmt.Sprint(err))
+		}
+		return dig(out...)
+	},
+	"CoalesceMessages": func(in probeInput) string {
+		var out []string
+		for _, l := range in.Logs {
+			m, err := auparse.ParseLogLine(l)
+			if err != nil {
+				continue
+			}
+			e, err := aucoalesce.CoalesceMessages([]*auparse.AuditMessage{m})
+			b, _ := json.Marshal(e)
+			out = append(out, string(b), fmt.Sprint(err))
+		}
+		return dig(out...)
+	},
+	"GetAuditEventType": func(in probeInput) string { return eventTypeDigest() },
+}
+
+func probeNames() []string {
+	var n []string
+	for k := range probes {
+		n = append(n, k)
+	}
+	sort.Strings(n)
+	return n
+}
+
+func firstCalls() {
+	var in probeInput
+	var archNames []string
+	for _, n := range auparse.AuditArchNames {
+		archNames = append(archNames, n)
+	}
+	sort.Strings(archNames)
+	for _, a := range archNames {
+		in.Lines = append(in.Lines, "-a always,exit -F arch="+a, "-a always,exit -F arch="+a+" -S 1 -F auid>=1000 -k k", "-a never,exit -F arch!="+a+" -S open")
+	}
+	in.Lines = append(in.Lines, "-a always,exit -S open -F uid=0", "-w /etc/passwd -p wa -k w", "-a always,exit -F arch=b64 -S execve -C uid!=euid -F key=x", "-a always,task", "-a never,exclude -F msgtype=SYSCALL", "-a always,exit -F exit=-EPERM -S all", "-D")
+	for _, l := range in.Lines {
+		if w, err := buildLine(l); err == nil {
+			in.Wires = append(in.Wires, hex.EncodeToString(w))
+		}
+	}
+	for t := 0; t < 65536; t += 3 {
+		in.Names = append(in.Names, auparse.AuditMessageType(t).String())
+	}
+	var archCodes []string
+	for c := range auparse.AuditArchNames {
+		archCodes = append(archCodes, fmt.Sprintf("%x", uint32(c)))
+	}
+	sort.Strings(archCodes)
+	for _, c := range archCodes {
+		for _, nr := range []int{0, 1, 2, 59, 191, 322} {
+			in.Logs = append(in.Logs, fmt.Sprintf("type=SYSCALL msg=audit(1700000000.123:%d): arch=%s syscall=%d success=no exit=-13 a0=1 a1=2 a2=3 a3=4 items=0 ppid=1 pid=2 auid=4294967295 uid=0 gid=0 euid=0 suid=0 fsuid=0 egid=0 sgid=0 fsgid=0 tty=pts0 ses=4294967295 comm=\"c\" exe=\"/x\" key=(null)", nr, c, nr))
+		}
+	}
+	in.Logs = append(in.Logs, "type=USER_LOGIN msg=audit(1700000000.123:9): pid=1 uid=0 auid=1000 ses=1 msg='op=login id=1000 exe=\"/usr/sbin/sshd\" hostname=h addr=1.2.3.4 terminal=ssh res=failed'",
+		"type=SOCKADDR msg=audit(1700000000.123:9): saddr=020001BB0A141E280000000000000000", "type=AVC msg=audit(1700000000.123:9): avc:  denied  { read } for  pid=1 comm=\"x\" scontext=a:b:c:s0 tcontext=d:e:f:s0 tclass=file permissive=0")
+	// reference: this process, which has exercised every table already
+	ref := map[string]string{}
+	for _, n := range probeNames() {
+		ref[n] = probes[n](in)
+	}
+	var jobs []interface{}
+	for _, n := range probeNames() {
+		jobs = append(jobs, map[string]interface{}{"First": n, "In": in})
+	}
+	par.Map("tables", jobs, 10*time.Minute, nil, func(r par.Result) {
+		if r.Died {
+			run.Errorf("first-call worker died: %s", r.Stderr)
+			return
+		}
+		var m map[string]string
+		_ = json.Unmarshal(r.Out, &m)
+		f := m["first"]
+		evals++
+		if m["first-digest"] != ref[f] {
+			rep("first-call-differs:"+f, "a fresh process whose FIRST use of the library is %s gets other answers from it than a process that has used the other entry points before (tables built lazily / primed by another entry point)", f)
+			return
+		}
+		for _, n := range probeNames() {
+			if m["then:"+n] != ref[n] {
+				rep("call-history-dependence:"+n, "in a fresh process that started with %s, %s gives other answers than in the reference process", f, n)
+				return
+			}
+		}
+		nontriv++
+	})
+	run.Set("first_call_probes", probeNames())
 }
 
 func msgTypes() {
@@ -129,6 +327,18 @@ func msgTypes() {
 		var un auparse.AuditMessageType
 		if err != nil || un.UnmarshalText(txt) != nil || un != typ {
 			rep("msgtype-text-marshalling", "record type %d marshals to %q which unmarshals to %d", t, txt, un)
+			continue
+		}
+		// the returned bytes belong to the caller (encoding.TextMarshaler): editing them in place
+		// may not change what the type marshals to from then on
+		keep := string(txt)
+		for i := range txt {
+			txt[i] = '#'
+		}
+		again, err := typ.MarshalText()
+		var un2 auparse.AuditMessageType
+		if err != nil || string(again) != keep || un2.UnmarshalText(again) != nil || un2 != typ {
+			rep("msgtype-text-marshalling-shared-buffer", "record type %d marshalled to %q; after the caller overwrote the bytes it had been given, it marshals to %q (unmarshals to %d)", t, keep, again, un2)
 			continue
 		}
 		nontriv++
